@@ -375,19 +375,35 @@ fn level_of(property: &str) -> &'static str {
     }
 }
 fn rule_of(property: &str) -> String {
-    match property {
-        "C01" => "scenarios drawn swarm-style from H(VERIF_SEED, property, run index): scheme, key sizes, enforced bounds, polynomial shapes/degrees/bounds/hiding, point labels (some sharing a value), 1-3 open/batch operations, benign faults (reorder, duplicate, short I/O, EINTR reads, restarts, re-serialization), rayon schedule. A case counts as distinct and non-trivial by its tuple (scheme family, operation shape, config class, fault class, decision); runs that never reach a verifier decision are not counted".into(),
-        _ => "distinct tuples (scheme family, operation shape, config class, fault kind, fault target, decision) reached by at least one verifier decision".into(),
-    }
+    let common = "Scenarios are drawn swarm-style from H(VERIF_SEED, property, run index): scheme instantiation (23 + streaming), key sizes, enforced bounds as spelled, polynomial shapes / degrees / bounds / hiding, point labels (some sharing one value), operations, enabled fault kinds and their positions, benign environment (reorder, duplicate, short I/O, EINTR, restarts, compression / validation mode), linear-code tuning knobs, rayon schedule seed and thread knob. ";
+    let specific = match property {
+        "C01" => "A case is the tuple (scheme family, operation shape, configuration class, benign-fault class, verifier decision); only runs that reach a verifier decision contribute.",
+        "C02" | "C03" | "C04" | "C06" => "A case is the tuple (scheme family, operation shape, configuration class, fault kind [and mutated component], verifier decision) of one faulted delivery; faults that cannot be applied to the drawn scenario, or that leave the statement true, are counted under probes_hit and contribute nothing.",
+        "C05" => "A case is the tuple (scheme family, batch shape, configuration class, fault kind, decision of the per-point replica, decision of the batch replica); every case is evaluated under 4 verifier RNG streams.",
+        "C07" => "A case is the tuple (scheme family, configuration class, monitor [rng accounting | structural audit | random_v | fork same / other stream | absent rng], outcome).",
+        "C10" => "A case is the tuple (scheme family, operation shape, configuration class, replaced component, library decision, reference decision) of one transcript of the single-fault neighbourhood.",
+        "C11" => "A case is the tuple (scheme family, history length, operation shape, configuration class, honest | fault kind, non-constant?, decision).",
+        "C12" => "A case is the tuple (scheme family, operation shape, configuration class, compress x validate mode, honest | tampered claim, decision) of the decision-equality part; the I/O contract part is counted separately under probes_hit.io-cases (one case = one artefact x mode x fault x byte offset); artefacts-offsets-exhaustive counts artefact encodings whose whole offset space was enumerated.",
+        "C17" => "A case is the tuple (scheme family, out-of-domain request kind, configuration class, outcome class [err | abort | ok]).",
+        "C18" => "distinct_nontrivial counts DISTINCT SCHEDULE FINGERPRINTS: a running hash of every scheduling decision the rayon shim took in one execution (job permutations, reduction cut points, join orders), per scheme family; each scenario is executed under the identity schedule, 5 seeded schedules x thread knobs {1,2,3,8,16} and one of them twice; coverage.cross_variant lists how many scenarios were additionally compared with the no-`parallel` build and the real-rayon build.",
+        _ => "distinct tuples (scheme family, operation shape, config class, fault kind, fault target, decision).",
+    };
+    format!("{common}{specific}")
 }
 fn assumptions_of(property: &str) -> Vec<String> {
     let mut v = vec![
         "sampling, not proof: a clean batch is evidence over the explored scenarios only".to_string(),
         "the deterministic rayon shim explores only executions real rayon permits (job order, contiguous reduction splits, join order, thread-count knob)".to_string(),
         "ark-ff / ark-ec / ark-poly / ark-serialize / ark-crypto-primitives are trusted as built from the cargo cache".to_string(),
+        "ground truth values come from the harness's own evaluators (Horner / hypercube sum / term sum), not from Polynomial::evaluate".to_string(),
     ];
-    if property == "C01" {
-        v.push("ground truth values come from the harness's own evaluator (Horner / hypercube sum / term sum)".into());
+    match property {
+        "C02" | "C03" | "C04" | "C05" | "C06" | "C11" => v.push("negative oracles demand rejection only of statements the reference model knows to be false; rejection is probabilistic in the scheme's challenges (128-bit) - documented exemptions in DESIGN.md section 10.3".into()),
+        "C07" => v.push("Hyrax under `parallel` takes its commit blinders from the seeded hook RNG (pc_verif), not from the caller".into()),
+        "C10" => v.push("the reference verifiers share LinearEncode::{encode,tensor}, Path::verify and the Poseidon sponge with the library".into()),
+        "C12" => v.push("an Interrupted write may surface as Err (ark-serialize 0.5.0 writes bool with Write::write): Ok => identical bytes is what is demanded".into()),
+        "C18" => v.push("variant C (real rayon) is corroboration only: its interleavings are not controlled".into()),
+        _ => {}
     }
     v
 }
